@@ -426,6 +426,11 @@ def judge_resp(sim, ev, rec):
                 if sc["method"] == BEARER and sc["data"] and sc["data"]["recipient"] \
                         and sc["data"]["recipient"] not in allowed:
                     hits.append(("C05", "foreign-recipient", "recipient=%s" % sc["data"]["recipient"], a["enc"]))
+                elif rec.get("conv_addr_only") and sc["method"] == BEARER and sc["data"] \
+                        and sc["data"]["recipient"] == sp.entity_id:
+                    # the application did not tell the library its entity identifier: the library may or may not
+                    # recognise it as Recipient (it refuses) - acceptance is not required
+                    addr_ok = False
     for a in eff:
         if a["subject"]:
             for sc in a["subject"]["confirmations"]:
@@ -657,6 +662,20 @@ def judge_answer(sim, ev, rec):
             sim.count("oracle.C08.emitted-signature-checked")
             if not signature_truth(xml, node_, id_, {rec["signing_key"]}):
                 add(sim, rec, "C08", "emitted-signature-does-not-verify", "%s id=%s key=%s" % (what_, id_, rec["signing_key"]))
+    # ---- C08: the bearer confirmation of an answer the library built itself (no dialect, no fault) names the request
+    # it answers and where it is to be delivered - whatever else the application put into the confirmation data via
+    # `farg`; without them the service provider cannot accept the answer as solicited
+    if not tf and not p.get("handover") and not p.get("dialect") and (msg.get("asked") or {}).get("irt"):
+        want_irt = msg["asked"]["irt"]
+        for a_ in m["assertions"]:
+            for sc_ in ((a_.get("subject") or {}).get("confirmations") or []):
+                if sc_["method"] != BEARER:
+                    continue
+                sim.count("oracle.C08.built-confirmation-checked")
+                d_ = sc_["data"] or {}
+                if d_.get("in_response_to") != want_irt or not d_.get("recipient"):
+                    add(sim, rec, "C08", "built-confirmation-incomplete", "in_response_to=%r (asked %r) recipient=%r" % (
+                        d_.get("in_response_to"), want_irt, d_.get("recipient")))
     # ---- C20: a protection that was asked for and whose tool run produced nothing
     faulted_ops = set(f["op"] for f in tf if f.get("ord", "all") == "all")
     root = ET.fromstring(xml)
